@@ -8,4 +8,4 @@ git -C $d apply $patch || { echo "PATCH DOES NOT APPLY"; git -C /repo worktree r
 (cd $d && GOFLAGS=-mod=mod GOPROXY=off GOSUMDB=off GOTOOLCHAIN=local go build ./... ) || echo "MUTANT DOES NOT BUILD"
 VERIF_REPO=$d VERIF_MAXVIOL=${VERIF_MAXVIOL:-5} /verif/check $prop ${3:-quick} 2>&1 | grep -E '^VIOLATION|^  key|(quick|thorough):|BUILD|exited|KNOWN' | head -${LINES_MAX:-12}
 git -C /repo worktree remove --force $d
-rm -f /verif/.build/*.mod /verif/.build/*.sum /verif/.build/props.test.go.* /verif/.build/props.race.test.go.*
+tag=$(python3 -c "import hashlib;print(hashlib.sha1('$d'.encode()).hexdigest()[:8])"); rm -f /verif/.build/go.$tag.mod /verif/.build/go.$tag.sum /verif/.build/props.test.go.$tag.mod /verif/.build/props.race.test.go.$tag.mod
